@@ -112,8 +112,8 @@ class AddressType(StringType, prim='address'):
 
     @classmethod
     def from_value(cls, value: str) -> 'AddressType':
-        if value.endswith('%default'):
-            value = value.split('%')[0]
+        if value.partition('%')[2] == 'default':
+            value = value.partition('%')[0]
         assert is_address(value), f'expected tz/KT/sr address, got {value}'
         return cls(value)
 
@@ -162,8 +162,8 @@ class TXRAddress(StringType, prim='tx_rollup_l2_address'):
 
     @classmethod
     def from_value(cls, value: str) -> 'TXRAddress':
-        if value.endswith('%default'):
-            value = value.split('%')[0]
+        if value.partition('%')[2] == 'default':
+            value = value.partition('%')[0]
         assert is_txr_address(value), f'expected txr1 address, got {value}'
         return cls(value)
 
